@@ -679,8 +679,12 @@ func (rn *runner) Exec(op string) string {
 		if d.err != "" {
 			return d.err
 		}
-		return fmt.Sprintf("cs=%s exts=%s sexts=%s qtp=%s scid=%s frames=%s fp=%s rec=%s own=%s", fmtU16(d.cs), fmtU16(d.exts),
-			fmtU16(specExtTypes(rn.spec)), hx(d.qtp), hx(d.scid), fmtIDs(d.frames), d.fp, d.rec, tokensOf(qtpExt(rn.spec).TransportParameters))
+		ov := "?"
+		if d.hasOv {
+			ov = hx(d.ov)
+		}
+		return fmt.Sprintf("cs=%s exts=%s sexts=%s qtp=%s scid=%s frames=%s fp=%s rec=%s ov=%s after=%s", fmtU16(d.cs), fmtU16(d.exts),
+			fmtU16(specExtTypes(rn.spec)), hx(d.qtp), hx(d.scid), fmtIDs(d.frames), d.fp, d.rec, ov, tokensOf(qtpExt(rn.spec).TransportParameters))
 	case "shufdist":
 		if len(f) != 3 {
 			return "bad-op"
@@ -823,6 +827,10 @@ func specExtTypes(spec *quic.QUICSpec) (out []uint16) {
 		}
 	}()
 	for _, e := range spec.ClientHelloSpec.Extensions {
+		if _, ok := e.(*tls.SNIExtension); ok {
+			out = append(out, 0) // filled in from tls.Config.ServerName (the dial works on a copy of this extension)
+			continue
+		}
 		n := e.Len()
 		if n < 4 {
 			continue
@@ -848,6 +856,8 @@ type dialResult struct {
 	frames []uint64
 	fp     string
 	rec    string // the connection's own transport parameters as it logged them (qlog parameters_set, local)
+	ov     []byte // the connection's ClientOverride
+	hasOv  bool
 }
 
 // recTrace records the connection's transport:parameters_set event for its own parameters.
@@ -893,6 +903,7 @@ func (rn *runner) dial(spec *quic.QUICSpec) (res dialResult) {
 	}
 	tr := &quic.UTransport{Transport: &quic.Transport{Conn: clientConn}, QUICSpec: spec}
 	trace := &recTrace{}
+	quic.VerifTakeOwnOverride()
 	conf := &quic.Config{Tracer: func(context.Context, bool, quic.ConnectionID) qlogwriter.Trace { return trace }}
 	ctx, cancel := context.WithTimeout(context.Background(), 10*time.Second)
 	done := make(chan string, 1)
@@ -977,6 +988,7 @@ func (rn *runner) dial(spec *quic.QUICSpec) (res dialResult) {
 		res.frames = append(res.frames, t)
 	}
 	sort.Slice(res.frames, func(i, j int) bool { return res.frames[i] < res.frames[j] })
+	res.ov, res.hasOv = quic.VerifTakeOwnOverride()
 	trace.mu.Lock()
 	res.rec = trace.rec
 	trace.mu.Unlock()
